@@ -135,3 +135,25 @@ package assertiontree
 //@ ensures classified-always-tracks-always-safe (=> result (and (= (calls "createReturnConsumersForAlwaysSafe") 1) (= (len (callarg "createReturnConsumersForAlwaysSafe" 0 1)) (- (len results) 1))))
 //@ ensures ok-true-tracks-the-guarded-results (=> (and result (local val)) (and (= (calls "createGeneralReturnConsumers") 1) (= (len (callarg "createGeneralReturnConsumers" 0 1)) (- (len results) 1)) (= (callarg "createGeneralReturnConsumers" 0 2) retStmt)))
 //@ ensures ok-false-tracks-nothing (=> (and result (not (local val))) (= (calls "createGeneralReturnConsumers") 0))
+
+//@ -- C08: what invalidates a pending guard.  For `v, err := f()` the guard is dropped when the GUARD variable (err / ok)
+//@ -- is assigned without the guarded value - not the other way round; the nonnil-argument effect is dropped when either
+//@ -- member is assigned; the no-op effect is never invalidated.
+//@ func (*FuncErrRet).isInvalidatedBy
+//@ prop C08
+//@ requires (not (= f nil))
+//@ modifies *
+//@ ensures the-error-assigned-without-the-result (and (= (calls "nodeAssignsOneWithoutOther") 1) (= (callarg "nodeAssignsOneWithoutOther" 0 1) node)
+//@    (= (callarg "nodeAssignsOneWithoutOther" 0 2) (old f.err)) (= (callarg "nodeAssignsOneWithoutOther" 0 3) (old f.ret)) (= result (callres "nodeAssignsOneWithoutOther")))
+//@ func (*okRead).isInvalidatedBy
+//@ prop C08
+//@ requires (not (= r nil))
+//@ modifies *
+//@ ensures the-ok-flag-assigned-without-the-value (and (= (calls "nodeAssignsOneWithoutOther") 1) (= (callarg "nodeAssignsOneWithoutOther" 0 1) node)
+//@    (= (callarg "nodeAssignsOneWithoutOther" 0 2) (old r.ok)) (= (callarg "nodeAssignsOneWithoutOther" 0 3) (old r.value)) (= result (callres "nodeAssignsOneWithoutOther")))
+//@ func (*FuncErrRetNonnilArg).isInvalidatedBy
+//@ prop C08
+//@ requires (not (= f nil))
+//@ modifies *
+//@ ensures either-member-assigned (and (= (calls "nodeAssignsAny") 1) (= (callarg "nodeAssignsAny" 0 1) node) (= result (callres "nodeAssignsAny"))
+//@    (= (len (callarg "nodeAssignsAny" 0 2)) 2) (= (idx (callarg "nodeAssignsAny" 0 2) 0) (old f.err)) (= (idx (callarg "nodeAssignsAny" 0 2) 1) (old f.arg)))
